@@ -2,5 +2,5 @@
    unit, prod, list, sumbool, sumor map to OCaml built-ins; nat, N, Z,
    positive stay the extracted inductive types. *)
 From Coq Require Import Extraction ExtrOcamlBasic.
-From Stam Require Import Base.Sx Run.C13 Run.C08 Run.C04 Run.C12.
-Extraction "model.ml" sx_eqb run_C13 run_C08 run_C04 run_C12.
+From Stam Require Import Base.Sx Run.C13 Run.C08 Run.C04 Run.C12 Run.C06.
+Extraction "model.ml" sx_eqb run_C13 run_C08 run_C04 run_C12 run_C06.
